@@ -283,6 +283,9 @@ func (s *memoryStore) UpdateNodePeers(nodeID store.NodeID, peers []string, block
 	now := time.Now()
 	node.LastSeen = now
 	node.BlockNumber = blockNumber
+	// Save the refreshed node first so that a node reporting itself as a
+	// peer is tracked with its new LastSeen (same as the badger driver).
+	s.nodes[nodeID] = node
 
 	for _, peer := range peers {
 		// Only update peers we already know about
